@@ -29,7 +29,8 @@
 EXTENDS Integers, Sequences, FiniteSets, TLC
 
 CONSTANTS MaxSidC,   \* stream identifiers 1..MaxSidC are tracked
-          MaxWin     \* 2^31-1 (small in the exhaustive model)
+          MaxWin,    \* 2^31-1 (small in the exhaustive model)
+          MfsMin, MfsMax   \* legal SETTINGS_MAX_FRAME_SIZE range: 16384 .. 2^24-1
 
 Sid == 1..MaxSidC
 
@@ -75,6 +76,7 @@ PInit(k) ==
    ocw |-> k.ocw0, osw |-> [s \in Sid |-> 0], iws |-> k.osw0, mfs |-> k.mfs0, psets |-> <<>>,
    rcvd |-> [s \in Sid |-> 0], sHdr |-> [s \in Sid |-> FALSE], hst |-> [s \in Sid |-> FALSE],
    mine |-> [s \in Sid |-> TRUE],
+   compliant |-> TRUE,     \* the client has never sent DATA beyond a window it held
    stim |-> NoStim, got |-> {}, acks |-> 0, pongs |-> {}, hold |-> E0,
    dead |-> FALSE, viol |-> {}]
 
@@ -147,13 +149,16 @@ PHeaders(p, e) ==
 
 PData(p, e) ==
   LET s == e.s  st == Ph(p, s)  L == e.n  d == e.n - e.p
-      q == [p EXCEPT !.cw = @ - L]
+      q == [p EXCEPT !.cw = @ - L,
+                     !.compliant = @ /\ L <= p.cw /\ (st = "open" => L <= p.sw[s])]
       over == IF L > p.cw THEN SErr(s, FLOW) ELSE {} IN
   IF s \notin Sid THEN Begin(p, Stim(e, "zero", {GA(PROTOCOL)}))
   ELSE IF st = "idle" THEN Begin(q, Stim(e, "idle", {GA(PROTOCOL)}))
   ELSE IF st = "open" THEN
     IF L > Min(p.sw[s], p.cw) THEN     \* 6.9.1: stream or connection error FLOW_CONTROL_ERROR
-      Begin(CloseP(q, s, "srst"), Stim(e, "open-excess", SErr(s, FLOW)))
+      Begin(CloseP(q, s, "srst"),
+            Stim(e, "open-excess", SErr(s, FLOW) \cup (IF p.cl[s] >= 0 /\ p.body[s] + d > p.cl[s]
+                                                        THEN SErr(s, PROTOCOL) ELSE {})))
     ELSE IF p.cl[s] >= 0 /\ p.body[s] + d > p.cl[s] THEN   \* 8.1.2.6
       Begin(CloseP(q, s, "srst"), Stim(e, "open-overcl", SErr(s, PROTOCOL)))
     ELSE
@@ -204,7 +209,7 @@ PSettings(p, e) ==
       nmfs == IF e.mfs >= 0 THEN e.mfs ELSE p.mfs
       \* 6.5.2 / 6.9.2
       errs == (IF e.iws = -2 THEN {GA(FLOW)} ELSE {})
-              \cup (IF e.mfs >= 0 /\ (e.mfs < 16384 \/ e.mfs > 16777215) THEN {GA(PROTOCOL)} ELSE {})
+              \cup (IF e.mfs >= 0 /\ (e.mfs < MfsMin \/ e.mfs > MfsMax) THEN {GA(PROTOCOL)} ELSE {})
               \cup (IF \E s \in Live(p) : Over(p.osw[s], niws - p.iws) THEN {GA(FLOW)} ELSE {}) IN
   IF errs # {} THEN Begin(p, Stim(e, "invalid", errs))
   ELSE Begin([p EXCEPT !.psets = Append(@, [iws |-> niws, mfs |-> nmfs])],
@@ -264,7 +269,8 @@ PSData(p, e) ==
   ELSE
     LET p1 == IF ~p.sHdr[s] THEN V(p, "DataBeforeHeaders", s, "") ELSE p
         w == p.osw[s] + (EffIws(p) - p.iws)
-        p2 == IF e.n > w \/ e.n > p.ocw \/ e.n > EffMfs(p)
+        \* 6.9.1: an empty DATA frame may be sent without window
+        p2 == IF e.n > 0 /\ (e.n > w \/ e.n > p.ocw \/ e.n > EffMfs(p))
               THEN V(p1, "DataFits", s, <<e.n, w, p.ocw, EffMfs(p)>>) ELSE p1
         d == e.n - e.p
         p3 == IF p.mine[s] /\ (~e.ord \/ (d > 0 /\ e.first # Pat(p.rcvd[s])))
@@ -359,10 +365,13 @@ PQuiesce(p, e) ==
                                         (st.ack = "ping" /\ st.ping \notin p.pongs))
               THEN V(p2, "Ack", 0, st.ack) ELSE p2
         expCw == p.k.cw0 - SumF(p.held, Sid)
-        p4 == IF ~ended /\ p.cw # expCw
+        \* 6.9: after excess DATA the two ends' views of the connection window may differ
+        p4 == IF ~ended /\ p.compliant /\ p.cw # expCw
               THEN V(p3, "Replenished", 0, <<"conn", p.cw, expCw>>) ELSE p3
         badS == {s \in Sid : p.ph[s] = "open" /\ p.sw[s] # p.k.sw0 - p.held[s]}
-        p5 == IF ~ended /\ badS # {}
+        p5 == IF ~ended /\ p.compliant /\ badS # {}
               THEN V(p4, "Replenished", CHOOSE s \in badS : TRUE, <<"stream">>) ELSE p4 IN
-    [p5 EXCEPT !.dead = ended, !.stim = NoStim, !.got = {}]
+    \* after excess DATA the client's view of the connection window is no longer exact (6.9):
+    \* the answer to that frame is judged, the rest of the connection is not
+    [p5 EXCEPT !.dead = ended \/ ~p.compliant, !.stim = NoStim, !.got = {}]
 =============================================================================
